@@ -15,7 +15,7 @@ prop("C03", True, "A",
      "Trusted: the reference model (engine/src/props/c03.rs). Identical / disjoint boxes make association unambiguous. Sequential use under the default schedule.",
      "7/C03")
 prop("C04", True, "A",
-     "exhaustive enumeration of all multi-scene call histories up to depth 4 (5 thorough) over 3 scenes x 7 tie-free detection lists on the real trackers, with a differential oracle: interleaved run versus a fresh tracker fed each scene's projection",
+     "exhaustive enumeration of all multi-scene call histories up to depth 4 (5 thorough) over 3 scenes x 7 tie-free detection lists on the real trackers (plus multi-scene batches and an expiry family with collection period 1/2/3), with a differential oracle: interleaved run versus a fresh tracker fed each scene's projection",
      'Every history of the bounded space is executed interleaved and per scene on real trackers (4 kinds x 2 metrics); per scene the records must be bit-identical up to an incrementally built id bijection and no track id may appear in two scenes.',
      "Trusted: nothing beyond the harness (no hand-written expectation). Tie-free inputs only; sequential use under the default schedule; scene symmetry is used to fix the first call's scene.",
      "7/C04")
@@ -25,12 +25,12 @@ prop("C05", True, "A+B",
      'Trusted: shuttle facade / channel shim (hooks H1-H3). Preemptions inside lock-protected sections beyond the fine tier are not explored; more than 3 shards only under the default schedule.',
      "7/C05")
 prop("C06", True, "B",
-     "stateless bounded-exhaustive exploration of all interleavings of the real batch predict loop, store workers, voting threads and result consumer under a controlled scheduler (shuttle runtime, own explorer with prefix replay): preemption-bounded for the 1x1 configuration, delay-bounded (every departure from the deterministic default schedule counts) elsewhere, bounds iterated 0,1,2,3..; deadlocks reported by the runtime",
+     "stateless bounded-exhaustive exploration of all interleavings of the real batch predict loop, store workers, voting threads and result consumer under a controlled scheduler (shuttle runtime, own explorer with prefix replay): preemption-bounded for the 1x1 configuration, delay-bounded (every departure from the deterministic default schedule counts) elsewhere, bounds iterated 0,1,2,3..; plus a fine tier in which every synchronisation operation is a decision point (two voting threads, two batches of two scenes, deviation bound 1 complete quick / up to 4 thorough); deadlocks reported by the runtime",
      "Every schedule within the completed bound is executed on the real BatchSort / BatchVisualSort for 3-4 worker configurations x batch sequences x two consumer disciplines; each must deliver one result per submitted scene with one record per detection in order, equal per scene to the simple tracker up to an id bijection, and terminate (submission, retrieval, drop). A discipline that violates the proviso is shown to deadlock (built-in detection demo).",
      "Trusted: shuttle facade / channel shim (hooks H1-H3, H5 fixed-key hasher for the dispatch order). The evidence reports the largest bound completed per scenario; deeper bounds are cut by the wall cap. No separate protocol model for more workers / scenes than explored directly.",
      "7/C06")
 prop("C07", True, "A+C",
-     "exhaustive enumeration of all step words (predict / update with 6 kinds of measurement) up to a depth and of all periodic words of length <= 4 unrolled to 300 steps on the real filters, each step compared with an f64 textbook step from the implementation's own pre-state; complete f32 bit-pattern sweep of the cost conversions",
+     "exhaustive enumeration of all step words (predict / update with 6 kinds of measurement, incl. angle-less measurements on rotated tracks) up to a depth and of all periodic words of length <= 4 unrolled to 300 steps on the real filters, each step compared with an f64 textbook step from the implementation's own pre-state; complete f32 bit-pattern sweep of the cost conversions",
      "Bounded exhaustive search over filter histories (depth 5 quick / 7 thorough, 36+9 configurations) with a per-step reference, so no drift accumulates in the oracle; the cost functions are unary f32 functions and are checked on every non-negative bit pattern in the thorough tier.",
      "Trusted: the f64 reference recurrence in engine/src/props/c07.rs and the H4 accessor. Measurements follow a filter-independent object trajectory with heights within [h0/4, 4*h0]; states whose predicted height collapses to ~0 (noise model degenerates) are outside the explored space.",
      "7/C07")
@@ -40,14 +40,14 @@ prop("C08", True, "C",
      "Trusted: engine/src/geom.rs reference clipper (computed relative to the first box's centre). Boxes off the lattice / menu are not covered.",
      "7/C08")
 prop("C09", True, "A+B",
-     'explicit-state breadth-first search over store operation sequences (55-symbol alphabet, ids {1,2,3}, classes {0,1}, shard counts 1..5) with exact state de-duplication, every transition executed on the real TrackStore in lock-step with a BTreeMap reference model; plus exhaustive schedule exploration of the non-blocking merge',
+     'explicit-state breadth-first search over store operation sequences (55-symbol alphabet, ids {1,2,3}, classes {0,1}, shard counts 1..5) with exact state de-duplication, every transition executed on the real TrackStore in lock-step with a BTreeMap reference model; plus exhaustive schedule exploration of the non-blocking merge at command granularity and with every synchronisation operation as a decision point (deviation bound 2 quick / 4 thorough)',
      'All operation sequences up to depth 3 (quick) / 4 (thorough) from every reachable distinct state are executed on the implementation and compared with the model on return value, notifications, shard statistics and the contents of every shard; the non-blocking merge is run under every command-level schedule and its observations must be explained by one linearisation point.',
      'Trusted: the reference model (engine/src/props/tmodel.rs, c09.rs) and the shuttle facade (hooks H1/H2). Sequential part runs under the deterministic default schedule. Histories deeper than the bound are not covered.',
      "7/C09")
 prop("C10", True, "B",
-     'stateless exhaustive exploration of all thread interleavings at command granularity (plus a fine tier with one preemption at every synchronisation operation) of the real store workers and the caller under a controlled scheduler (shuttle runtime, own DFS explorer with prefix replay), result multiset compared with a reference cartesian product',
-     'Every schedule of every scenario (store contents x candidate batch x only_baked x shards 1..2 quick / 1..3 thorough) is executed on the real code; the oracle demands the reference multiset, the error count and an unchanged store in every one, and counts distinct arrival orders as vacuity guard.',
-     "Trusted: shuttle facade and channel shim (src/verif.rs), schedule-point placement (hook H3). Preemptions inside a lock-protected section beyond the fine tier's single one are not explored.",
+     'stateless exhaustive exploration of all thread interleavings at command granularity (plus a fine tier: every synchronisation operation a decision point, two (thorough: three) departures from the default schedule) of the real store workers and the caller under a controlled scheduler (shuttle runtime, own DFS explorer with prefix replay), result multiset compared with a reference cartesian product',
+     'Every schedule of every scenario (store contents x candidate batch x only_baked x consumption through all() / into_iter() x fresh store / after an abandoned or half-read earlier query x shards 1..2 quick / 1..3 thorough) is executed on the real code; the oracle demands the reference multiset, the error count and an unchanged store in every one, and counts distinct arrival orders as vacuity guard.',
+     "Trusted: shuttle facade and channel shim (src/verif.rs), schedule-point placement (hook H3). Interleavings at synchronisation-operation granularity beyond the fine tier's deviation bound are not explored.",
      "7/C10")
 prop("C11", True, "A",
      'exhaustive fault enumeration: every operation x track shape x class list x history flag x every fault position of the user callbacks, executed on the real Track / TrackStore against a transactional reference model',
@@ -55,7 +55,7 @@ prop("C11", True, "A",
      'Trusted: the reference model and the harness callbacks (mutate-then-fail, so a missing rollback is visible). Metric state is read through a muted probe on a clone.',
      "7/C11")
 prop("C12", True, "A",
-     "exhaustive enumeration of all call histories up to depth 4 over a 12-list detection alphabet on the real VisualSort (and BatchVisualSort on a sub-grid) for an option grid (16-point covering subset quick, all 512 combinations thorough); every decision re-derived independently from the observable galleries of the pre-call store",
+     "exhaustive enumeration of all call histories up to depth 4 over a 13-list detection alphabet on the real VisualSort (and BatchVisualSort on a sub-grid) for an option grid (16-point covering subset quick, all 512 combinations thorough; plus single-threshold own-area and low-cosine-threshold configurations); every decision re-derived independently from the observable galleries of the pre-call store",
      "Every history of the bounded space is executed; per call the oracle recomputes usable features, collected counts, in-threshold votes, vote weights, contests and the positional fallback (own f64 feature distances, own clipper / Mahalanobis, brute-force assignment) and checks: visual attachments only with a qualifying claim and never against a heavier claimant, the heaviest claimant gets the track, losers are not attached to the contested track, claim-less detections are associated positionally and optimally among tracks not taken by appearance, new tracks are not reported visual.",
      "Trusted: the re-derivation in engine/src/props/c12.rs and assoc.rs. Decisions within 1e-3 of a threshold / weights within 1e-4 of each other are accepted either way and counted. Only what the statement fixes is demanded (e.g. the fate of a contest loser beyond 'not on the contested track' is not).",
      "7/C12")
@@ -65,9 +65,9 @@ prop("C13", True, "A",
      'Trusted: the oracle in engine/src/props/c13.rs. Eviction when the gallery is full and the newcomer carries no feature is accepted (the statement does not forbid it). One continuing object plus one distractor.',
      "7/C13")
 prop("C14", True, "C",
-     'exhaustive enumeration of all box lists up to n=4 (5 thorough) over a 9-box menu x score patterns x thresholds, plus chain/ladder/grid/fan families for every k<=40, on the real nms(); oracle straight from the statement with own coverage computation',
+     'exhaustive enumeration of all box lists up to n=4 (5 thorough) over an 11-box menu x score patterns x thresholds, plus chain/ladder/grid/fan families for every k<=40, plus an exact family (all lists of 2 (3) boxes from 60 axis-aligned boxes with dyadic corners and sizes x dyadic thresholds, decided with zero margin), on the real nms(); oracle straight from the statement with own coverage computation',
      'All lists of the finite product are executed and each clause of the statement (subset by reference identity, rank order, top kept, independence, justification of every drop, idempotence) is checked.',
-     'Trusted: own coverage computation; keep/drop decisions asserted outside a 1e-4 margin around the threshold. Lists longer than 5 only along the enumerated families.',
+     'Trusted: own coverage computation; keep/drop decisions asserted outside a 1e-4 margin around the threshold (zero margin on the exact dyadic family, where every correctly rounded computation is exact). Lists longer than 5 only along the enumerated families.',
      "7/C14")
 prop("C15", True, "C",
      'exhaustive enumeration of all sets of <=3 integer boxes on a 5-point lattice and of 4 on a 4-point lattice (every ordering of sampled 3-sets by a fixed stride) against exact cell counting, plus enumerated degenerate/rotated families of 1..8 boxes against inclusion-exclusion',
@@ -95,7 +95,7 @@ prop("C20", True, "A+C",
      "Trusted: the table reference and engine/src/props/assoc.rs. One fast object plus a bystander; decisions within 1e-3 of a limit are accepted either way.",
      "7/C20")
 prop("C19", True, "C",
-     "exhaustive enumeration of complete input grids on the real code (every coordinate x base x delta x argument order; every f32 bit pattern in [-1000,1000] for normalize_angle in the thorough tier) against an f64 reference",
+     "exhaustive enumeration of complete input grids on the real code (every coordinate x base x delta x argument order; every f32 bit pattern in [-1000,1000] for normalize_angle in the thorough tier) and of every sequence of <= 4 (5) in-place changes / regenerations of the cached polygon against an f64 reference",
      "Every case of the stated finite grids is executed on the implementation and compared with the reference; equality decisions are asserted only outside a 0.1% margin around the library epsilon. This is the right level because the property is a universally quantified statement about pure functions of at most two boxes.",
      "Trusted: the f64 reference geometry in engine/src/geom.rs; boxes off the grids are not covered.",
      "7/C19")
